@@ -106,12 +106,48 @@ def lkrun : P String := do
   if v == 0 then pure (showRun (run (implOld mx) sched ops))
   else pure (showRun (run (implNew mx) sched ops))
 
+def wop : P (WOp Float) := do
+  let k ← tok
+  match k with
+  | "C" => do let a ← nat; let b ← nat; pure (.ctor a b)
+  | "A" => do let o ← nat; let a ← nat; let b ← nat; pure (.setArr o a b)
+  | "W" => do let id ← nat; let i ← nat; let v ← flt; pure (.write id i v)
+  | _ => failure
+
+/-- how the two classes evaluate an object holding (times, temperatures) -/
+def evalObj (diffusion : Bool) (z ts : List Float) (x : List Float × List Float) : String :=
+  if diffusion then " ".intercalate (ts.map (fun t => optL (((DState.ctor .other).setArr x.1 x.2).eval z t)))
+  else " ".intercalate (ts.map (fun t => optS (((PState.ctor .other).setArr x.1 x.2).eval t)))
+
+def showWorld (diffusion : Bool) (z ts : List Float) (store : List (List Float))
+    (objs : List (Option (List Float × List Float))) : String :=
+  " ".intercalate (store.map flist ++ objs.map (fun o => match o with
+    | some x => evalObj diffusion z ts x
+    | none => "E"))
+
+/-- ts.world  variant(0 = references kept, 1 = contents stored)  P|D  store…  ops…  z  times
+    → after every op: every array of the caller, then every object evaluated at every time -/
+def world : P String := do
+  let v ← nat; let k ← tok; let store ← lst flts; let ops ← lst wop; let z ← flts; let ts ← flts
+  let d := k == "D"
+  if v == 0 then
+    let r := ops.foldl (fun (acc : RWorld Float × List String) op =>
+      let w := acc.1.step op
+      (w, acc.2 ++ [showWorld d z ts w.store ((List.range w.objs.length).map w.obj)])) (⟨store, []⟩, [])
+    pure (" ".intercalate r.2)
+  else
+    let r := ops.foldl (fun (acc : VWorld Float × List String) op =>
+      let w := acc.1.step op
+      (w, acc.2 ++ [showWorld d z ts w.store ((List.range w.objs.length).map w.obj)])) (⟨store, []⟩, [])
+    pure (" ".intercalate r.2)
+
 def handle (verb : String) : Option (P String) :=
   match verb with
   | "ts.prec" => some prec
   | "ts.diff" => some diff
   | "interp" => some interp
   | "lk.run" => some lkrun
+  | "ts.world" => some world
   | _ => none
 
 end KawinV.Drv.C13
